@@ -4,6 +4,7 @@ from fractions import Fraction
 from ....common import finite_float, list_of
 from .geom import convert_object_position, DirectSpeakerPosition, ObjectPosition
 from .main_elements import AudioChannelFormat, TypeDefinition
+from ..exceptions import AdmError
 
 
 @attrs(slots=True)
@@ -34,7 +35,7 @@ class AudioBlockFormat(object):
             (self.rtime is None and self.duration is None)
             or (self.rtime is not None and self.duration is not None)
         ):
-            raise ValueError("rtime and duration must be used together")
+            raise AdmError("rtime and duration must be used together")
 
 
 BlockFormat = AudioBlockFormat
@@ -74,7 +75,7 @@ class MatrixCoefficient(object):
     def validate(self, adm=None, audioChannelFormat=None, audioBlockFormat=None):
         validate(self)
         if self.inputChannelFormat is None:
-            raise ValueError("MatrixCoefficient must have an inputChannelFormat attribute")
+            raise AdmError("MatrixCoefficient must have an inputChannelFormat attribute")
 
 
 @attrs(slots=True)
